@@ -34,7 +34,7 @@ ASSUMPTIONS = [
     "Soundness is one-directional for general operators: False for a commuting pair is allowed by the statement.",
     "State preparations and non-unitary templates without a matrix are outside the domain (no matrix to commute).",
 ]
-BUDGET = {"quick": {"examples": 1200}, "thorough": {"examples": 400000, "shards": 16}}
+BUDGET = {"quick": {"examples": 900}, "thorough": {"examples": 400000, "shards": 16}}
 SHRINK_LISTS = ("operands",)
 TOL = 1e-6
 UNSUPPORTED = ("PauliRot", "QubitDensityMatrix", "ApproxTimeEvolution", "ArbitraryUnitary", "CommutingEvolution", "Exp")
